@@ -17,6 +17,9 @@ os.environ['PYTHONPATH'] = SRC
 os.environ.setdefault('PYTHONHASHSEED', '0')
 os.environ.pop('PYMINIFY_FORCE_BEST_EFFORT', None)
 sys.path.insert(0, VERIF)
+import warnings
+warnings.filterwarnings('ignore', category=SyntaxWarning)
+warnings.filterwarnings('ignore', category=DeprecationWarning)
 
 ALLOWED_AXIOMS = set()   # every property theorem is expected to be closed under the global context
 
